@@ -764,6 +764,22 @@ func c02Misc(c *Ctx) {
 	// curve wiring
 	for _, w := range []struct{ fn, global, ctor string }{{"Secp256k1", "secp256k1", "repo/pkg/slip10/elliptic/internal/btccurve.Secp256k1"}, {"Nist256p1", "nist256p1", "crypto/elliptic.P256"}} {
 		init, writers, g := c.globalInit("pkg/slip10/elliptic", w.global)
+		if g == nil {
+			// the unexported variable may carry another name: the package variable the exported accessor returns
+			if acc := c.P.Func("pkg/slip10/elliptic", w.fn); acc != nil {
+				ab := ana.NewBuilder(c.P, acc)
+				for _, e := range ana.Exits(acc) {
+					if e.Panic || len(e.Results) != 1 {
+						continue
+					}
+					if gl, isG := ab.Root(e.Results[0]).(*ssa.UnOp); isG {
+						if gg, isG := gl.X.(*ssa.Global); isG {
+							init, writers, g = c.globalInit("pkg/slip10/elliptic", gg.Name())
+						}
+					}
+				}
+			}
+		}
 		ok := init != nil && writers == 1
 		if ok {
 			f, _ := ana.Find("call<"+w.ctor+">", init)
